@@ -388,23 +388,15 @@ int main(void) {
       pw = rfbDecryptPasswdFromFile(path);
       if (!pw) puts("null");
       else { vh_puthex(stdout, (unsigned char *)pw, strlen(pw)); putchar('\n'); free(pw); }
-    } else if (!strcmp(tok[0], "ext") && n == 2) {
-      int t = atoi(tok[1]), i, slot = -1;
-      for (i = 0; i < MAXEXT; i++) { if (extUsed[i] && extHandlers[i].type == t) slot = -2; }
-      for (i = 0; i < MAXEXT && slot == -1; i++) if (!extUsed[i]) slot = i;
-      if (t < 0 || t > 255 || slot < 0) { puts("bad-op"); goto next; }
-      extHandlers[slot].type = (uint8_t)t;
-      extHandlers[slot].handler = ext_handler;
-      extHandlers[slot].next = NULL;
-      extUsed[slot] = 1;
-      rfbRegisterSecurityHandler(&extHandlers[slot]);
-      puts("ok");
-    } else if (!strcmp(tok[0], "unext") && n == 2) {
-      int t = atoi(tok[1]), i, slot = -1;
-      for (i = 0; i < MAXEXT; i++) if (extUsed[i] && extHandlers[i].type == t) slot = i;
-      if (slot < 0) { puts("bad-op"); goto next; }
-      rfbUnregisterSecurityHandler(&extHandlers[slot]);
-      extUsed[slot] = 0;
+    } else if ((!strcmp(tok[0], "ext") || !strcmp(tok[0], "unext")) && n == 2) {
+      /* The application's handler structs live as long as the process, one per type, and the harness never
+         touches their `next` field: registering a struct again, registering one that is already linked and
+         unregistering one that is not registered are all passed to the library as they are. */
+      int t = atoi(tok[1]);
+      if (t < 0 || t > 255 || tok[1][0] < '0' || tok[1][0] > '9') { puts("bad-op"); goto next; }
+      if (!extUsed[t]) { extHandlers[t].type = (uint8_t)t; extHandlers[t].handler = ext_handler; extHandlers[t].next = NULL; extUsed[t] = 1; }
+      if (tok[0][0] == 'e') rfbRegisterSecurityHandler(&extHandlers[t]);
+      else rfbUnregisterSecurityHandler(&extHandlers[t]);
       puts("ok");
     } else if (!strcmp(tok[0], "tight") && n == 2 && (!strcmp(tok[1], "0") || !strcmp(tok[1], "1"))) {
       int on = tok[1][0] == '1';
